@@ -10,7 +10,7 @@ from vcheck import case_line
 from common import *
 
 RULE = ('every distinct TZif file under /usr/share/zoneinfo (incl. right/ with leap records); model-driven '
-        'conforming writer (v1/v2/v3, 0-40 transitions, footer on/off, leap records, times at the i32/i64 ends); '
+        'conforming writer (v1/v2/v3, 0-40 transitions, footer on/off, leap records with and without footer, indicator arrays, times at the i32/i64 ends); '
         'structured mutations (each header count +-1/x2/extremes in both headers, truncation at and around every '
         'block boundary, index bytes, isdst/indicator bytes, version bytes incl. mismatched second header, unsorted '
         'times, footer edits); random bytes with and without a valid header; TZ strings from the POSIX grammar '
@@ -300,13 +300,20 @@ def rand_zone(rng, version):
     z.rule = rule
     if version >= 2:
         z.footer = fmt_rule(rule, rng.random() < 0.2) if rule else ''
-    if rng.random() < 0.15 and not rule:
+    if rng.random() < 0.15 and (not rule or rng.random() < 0.5):
         t, c, lp = rng.choice([0, 78796800, 10**6]), 0, []
         for _ in range(rng.randint(1, 5)):
             c += rng.choice([1, 1, 1, -1])
             lp.append((t, c))
             t += rng.choice([2419199, 2419200, 31536000, 15724800])
         z.leaps = lp
+        if rule and z.trans:
+            # leap records together with a footer (as in the right/ files): the reader compares the rule with the
+            # last transition after taking off the correction of the last leap record before it
+            t = z.trans[-1][0]
+            u = t - ([0] + [c for lt, c in lp if lt < t])[-1]
+            want = rule.type_at(u) if -10**12 < u < 10**12 else rule.std
+            z.trans[-1] = (t, z.types.index(want))
     if rng.random() < 0.4:
         z.isstd = [rng.randint(0, 1) for _ in z.types]
         if rng.random() < 0.6:
